@@ -88,11 +88,6 @@ def nanFree : Prim → Bool
   | .f64 b => !isNaN64 b
   | _ => true
 
-/-- Guard of F15: two primitives do not form a `+0`/`−0` pair (equal under `==`, different bits). -/
-def sameZeroSign : Prim → Prim → Bool
-  | .f32 a, .f32 b => !(isZero32 a && isZero32 b) || a == b
-  | .f64 a, .f64 b => !(isZero64 a && isZero64 b) || a == b
-  | _, _ => true
 end Prim
 
 /-- `bytes.Equal` on the element lists (nil and empty are both `[]` here, see `GoSlice`) -/
